@@ -9,6 +9,7 @@ import (
 	"fmt"
 	"math"
 	"math/big"
+	"os"
 	"sort"
 	"strconv"
 	"strings"
@@ -35,9 +36,20 @@ const (
 type c06Conv struct {
 	CollapseBS bool // `\\` in measurement / tag key / tag value / field key means one backslash (else two)
 	MstEq      bool // `\=` in a measurement means `=` (else backslash + `=`; docs list only `,` and space)
+	QuoteKeys  bool // loose quotes: an unescaped `"` in a field key also protects spaces and commas (upstream: only in
+	// field values), and an unclosed quote protects everything up to the end of the line (upstream: error)
 }
 
-var c06Convs = []c06Conv{{true, true}, {false, true}, {true, false}, {false, false}}
+var c06Convs = func() (out []c06Conv) {
+	for _, q := range []bool{false, true} {
+		for _, m := range []bool{true, false} {
+			for _, b := range []bool{true, false} {
+				out = append(out, c06Conv{b, m, q})
+			}
+		}
+	}
+	return out
+}()
 
 type c06Val struct {
 	Kind byte // 'i' integer, 'u' unsigned, 'f' float, 's' string, 'b' boolean
@@ -332,11 +344,11 @@ func c06RefLine(line string, mult int64, cv c06Conv) (p c06Point) {
 	}
 	odd := func(r ...string) { p.Odd = append(p.Odd, r...) }
 	i := 0
-	for i < len(line) && line[i] == ' ' {
+	for i < len(line) && (line[i] == ' ' || line[i] == '\t') {
 		i++
 	}
 	if i > 0 {
-		odd("leading_space")
+		odd("leading_space") // upstream skips blanks and tabs before the measurement
 	}
 	ms := i
 	i = c06Scan(line, i, ", ")
@@ -391,9 +403,28 @@ func c06RefLine(line string, mult int64, cv c06Conv) (p c06Point) {
 	if i >= len(line) {
 		return inv("no_field_section")
 	}
+	// Field section. Quotes toggle a "quoted" state in which spaces and commas do not separate
+	// (upstream tokenisation); a value token that starts with a quote must end with one and is a
+	// string: its content is everything between the first and the last quote.
+	par := false
 	for {
 		ks := i
-		i = c06Scan(line, i, "=, ")
+		for i < len(line) {
+			c := line[i]
+			if c == '\\' && i+1 < len(line) {
+				i += 2
+				continue
+			}
+			if c == '"' && cv.QuoteKeys {
+				par = !par
+				i++
+				continue
+			}
+			if c == '=' || ((c == ',' || c == ' ') && !par) {
+				break
+			}
+			i++
+		}
 		if i >= len(line) || line[i] != '=' {
 			return inv("field_without_value")
 		}
@@ -406,46 +437,57 @@ func c06RefLine(line string, mult int64, cv c06Conv) (p c06Point) {
 		}
 		key := c06Unescape(rawK, 'k', cv)
 		i++
-		if i >= len(line) {
+		if !cv.QuoteKeys {
+			par = false
+		}
+		vs := i
+		for i < len(line) {
+			c := line[i]
+			if c == '\\' && i+1 < len(line) {
+				i += 2
+				continue
+			}
+			if c == '"' {
+				par = !par
+				i++
+				continue
+			}
+			if (c == ',' || c == ' ') && !par {
+				break
+			}
+			i++
+		}
+		if par {
+			if !cv.QuoteKeys {
+				return inv("unbalanced_quotes")
+			}
+			odd("unbalanced_quotes")
+		}
+		tok := line[vs:i]
+		if tok == "" {
 			return inv("empty_field_value")
 		}
 		var val c06Val
-		if line[i] == '"' {
-			start := i
-			i++
-			var sb []byte
-			closed := false
-			for i < len(line) {
-				c := line[i]
-				if c == '\\' && i+1 < len(line) && (line[i+1] == '"' || line[i+1] == '\\') {
-					sb = append(sb, line[i+1])
-					i += 2
+		if tok[0] == '"' {
+			if len(tok) < 2 || tok[len(tok)-1] != '"' {
+				return inv("garbage_after_string")
+			}
+			inner := tok[1 : len(tok)-1]
+			sb := make([]byte, 0, len(inner))
+			for k := 0; k < len(inner); k++ {
+				c := inner[k]
+				if c == '\\' && k+1 < len(inner) && (inner[k+1] == '"' || inner[k+1] == '\\') {
+					sb = append(sb, inner[k+1])
+					k++
 					continue
 				}
 				if c == '"' {
-					closed = true
-					i++
-					break
+					odd("unescaped_inner_quote")
 				}
 				sb = append(sb, c)
-				i++
 			}
-			if !closed {
-				return inv("unterminated_string")
-			}
-			if i < len(line) && line[i] != ',' && line[i] != ' ' {
-				return inv("garbage_after_string")
-			}
-			val = c06Val{Kind: 's', S: string(sb), Tok: line[start:i]}
+			val = c06Val{Kind: 's', S: string(sb), Tok: tok}
 		} else {
-			vs := i
-			for i < len(line) && line[i] != ',' && line[i] != ' ' {
-				i++
-			}
-			tok := line[vs:i]
-			if tok == "" {
-				return inv("empty_field_value")
-			}
 			v, st, why := c06Scalar(tok)
 			if st == c06Invalid {
 				p.Fields = append(p.Fields, c06Field{key, v})
@@ -471,10 +513,13 @@ func c06RefLine(line string, mult int64, cv c06Conv) (p c06Point) {
 	}
 	if i < len(line) {
 		j = i
-		for i < len(line) && line[i] == ' ' {
+		for i < len(line) && (line[i] == ' ' || line[i] == '\t') {
+			if line[i] == '\t' {
+				odd("tab_before_timestamp") // upstream skips blanks and tabs before the timestamp
+			}
 			i++
 		}
-		rest := strings.TrimRight(line[i:], " ")
+		rest := strings.TrimRight(line[i:], " \t")
 		if rest == "" {
 			if len(line)-j > 0 {
 				odd("trailing_space")
@@ -534,17 +579,24 @@ func c06RefLine(line string, mult int64, cv c06Conv) (p c06Point) {
 }
 
 // c06RefLines: a request body is a sequence of lines separated by \n (optional \r before it);
-// empty lines and lines starting with # carry no point.
-func c06RefLines(text string) []string {
-	var out []string
-	for _, l := range strings.Split(text, "\n") {
+// empty lines and lines starting with # carry no point. ends[i] = offset just after line i's newline.
+func c06RefLines(text string) (out []string, ends []int) {
+	pos := 0
+	for pos < len(text) {
+		n := strings.IndexByte(text[pos:], '\n')
+		l, end := text[pos:], len(text)
+		if n >= 0 {
+			l, end = text[pos:pos+n], pos+n+1
+		}
+		pos = end
 		l = strings.TrimSuffix(l, "\r")
 		if l == "" || l[0] == '#' {
 			continue
 		}
 		out = append(out, l)
+		ends = append(ends, end)
 	}
-	return out
+	return out, ends
 }
 
 // ---------------------------------------------------------------------------------------------
@@ -817,6 +869,16 @@ func c06CompareValue(w, g *c06Val) (kind, detail string) {
 	case 'f':
 		if math.Float64bits(w.F) != math.Float64bits(g.F) {
 			d := c06UlpDistance(w.F, g.F)
+			mant := strings.TrimSuffix(w.Tok, "f")
+			if k := strings.IndexAny(mant, "eE"); k >= 0 {
+				mant = mant[:k]
+			}
+			if strings.HasPrefix(w.Tok, "+") && g.F == 0 && w.F != 0 {
+				return "float_leading_plus_stored_as_zero", fmt.Sprintf("float text %q = %s stored as %s", w.Tok, w, g)
+			}
+			if strings.HasPrefix(w.Tok, "-") && strings.HasSuffix(mant, ".") && math.Float64bits(g.F) == math.Float64bits(-w.F) {
+				return "float_trailing_point_sign_lost", fmt.Sprintf("float text %q = %s stored as %s", w.Tok, w, g)
+			}
 			if d <= 2 && !math.IsNaN(g.F) && !math.IsInf(g.F, 0) {
 				return "float_not_correctly_rounded", fmt.Sprintf("float text %q = %s stored as %s (%d ulp off)", w.Tok, w, g, d)
 			}
@@ -841,7 +903,7 @@ type c06Verdict struct {
 }
 
 // c06Judge compares the real outcome with the reference reading under one convention.
-func c06Judge(c *c06Case, lines []string, mult int64, cv c06Conv, real *c06Real) (v c06Verdict) {
+func c06Judge(c *c06Case, lines []string, ends []int, mult int64, cv c06Conv, real *c06Real) (v c06Verdict) {
 	refs := make([]c06Point, len(lines))
 	nInvalid, nOdd := 0, 0
 	for i, l := range lines {
@@ -886,40 +948,65 @@ func c06Judge(c *c06Case, lines []string, mult int64, cv c06Conv, real *c06Real)
 		v.Kind, v.Detail = "valid_line_rejected", "every line is valid line protocol but the write is rejected"+describe()
 		return v
 	}
-	if nInvalid > 0 {
-		// accepted although at least one line is invalid
-		var valid []*c06Point
-		var firstInvalid *c06Point
+	if len(refs) > 1 || (len(refs) == 1 && lines[0] != c.Text) {
+		// A body of several physical lines that reports success. Lines that the write path rejects on
+		// their own must have made the write fail; find them by probing every line alone.
+		var kept []int
+		dropped, allHidden := -1, true
 		for i := range refs {
-			if refs[i].Status != c06Invalid {
-				valid = append(valid, &refs[i])
-			} else if firstInvalid == nil {
-				firstInvalid = &refs[i]
+			single := c06RunReal(lines[i], mult)
+			if single.Err != nil || single.Panic != "" {
+				if dropped < 0 {
+					dropped = i
+				}
+				// hidden = some text follows the newline that ends this line
+				allHidden = allHidden && ends[i] < len(c.Text)
+				continue
 			}
+			if refs[i].Status == c06Invalid && len(single.Rows) == 1 {
+				// the defect is that this line is accepted at all; name it as for the single line
+				v.Kind = c06ClassifyAccepted(lines[i], &refs[i], &single.Rows[0], mult)
+				v.Detail = fmt.Sprintf("line %d is not valid line protocol (%s) but accepted and stored", i, refs[i].Reason) + describe()
+				return v
+			}
+			kept = append(kept, i)
 		}
-		if len(valid) == len(real.Rows) {
-			same := true
-			for i := range valid {
-				if k, _ := c06ComparePoint(valid[i], &real.Rows[i], real.Lo, real.Hi); k != "" {
+		if dropped >= 0 {
+			same := len(kept) == len(real.Rows)
+			for k := 0; same && k < len(kept); k++ {
+				if refs[kept[k]].Status == c06Invalid {
+					same = false
+				} else if kd, _ := c06ComparePoint(&refs[kept[k]], &real.Rows[k], real.Lo, real.Hi); kd != "" {
 					same = false
 				}
 			}
+			if same && allHidden {
+				v.Kind = "rejected_line_hidden_by_later_line"
+				v.Detail = fmt.Sprintf("line %d is rejected when written alone; followed by more text its error is lost: it is skipped and the write reports success (the other lines are stored)", dropped) + describe()
+				return v
+			}
 			if same {
-				if len(refs) > 1 {
-					v.Kind = "invalid_line_in_batch_dropped_without_error"
-				} else {
+				v.Kind = "rejected_line_dropped_without_error"
+				v.Detail = fmt.Sprintf("line %d is rejected when written alone, but here it is skipped and the write reports success", dropped) + describe()
+				return v
+			}
+			v.Kind, v.Detail = "batch_mismatch", "the rows stored for the batch are not the lines that are accepted alone"+describe()
+			return v
+		}
+	}
+	if nInvalid > 0 {
+		for i := range refs {
+			if refs[i].Status == c06Invalid {
+				v.Kind = "invalid_line_accepted"
+				if len(refs) == 1 && len(real.Rows) == 1 {
+					v.Kind = c06ClassifyAccepted(lines[i], &refs[i], &real.Rows[0], mult)
+				} else if len(refs) == 1 && len(real.Rows) == 0 {
 					v.Kind = "invalid_line_dropped_without_error"
 				}
-				v.Detail = "an invalid line was skipped and the write reports success" + describe()
+				v.Detail = "not valid line protocol (" + refs[i].Reason + ") but accepted" + describe()
 				return v
 			}
 		}
-		v.Kind = "invalid_line_accepted"
-		if len(refs) == 1 && len(real.Rows) == 1 {
-			v.Kind = c06ClassifyAccepted(firstInvalid, &real.Rows[0], mult)
-		}
-		v.Detail = "not valid line protocol (" + firstInvalid.Reason + ") but accepted and stored" + describe()
-		return v
 	}
 	if len(real.Rows) != len(refs) {
 		v.Kind, v.Detail = "row_count_mismatch", fmt.Sprintf("%d lines, %d rows stored", len(refs), len(real.Rows))+describe()
@@ -938,29 +1025,59 @@ func c06Judge(c *c06Case, lines []string, mult int64, cv c06Conv, real *c06Real)
 }
 
 // c06ClassifyAccepted names the defect behind one accepted invalid line.
-func c06ClassifyAccepted(p *c06Point, o *c06Obs, mult int64) string {
-	switch {
-	case p.Reason == "timestamp_precision_overflow":
-		if o.TS == p.RawTS*mult { // wrapping product
-			return "timestamp_precision_overflow_wraps"
-		}
-	case strings.HasPrefix(p.Reason, "bad_value:"):
+func c06ClassifyAccepted(line string, p *c06Point, o *c06Obs, mult int64) string {
+	if p.Reason == "timestamp_precision_overflow" && o.TS == p.RawTS*mult { // wrapping product
+		return "timestamp_precision_overflow_wraps"
+	}
+	if strings.HasPrefix(p.Reason, "bad_value:") {
 		bad := p.Fields[len(p.Fields)-1]
 		tok := bad.Val.Tok
 		for _, f := range o.Fields {
-			if f.Key != bad.Key {
-				continue
-			}
-			if len(tok) > 1 && tok[len(tok)-1] == 'f' && f.Val.Kind == 'f' {
+			if f.Key == bad.Key && len(tok) > 1 && tok[len(tok)-1] == 'f' && f.Val.Kind == 'f' && strings.IndexByte(tok, '"') < 0 {
 				return "f_suffix_value_not_validated"
-			}
-			if f.Val.Kind == 's' && f.Val.S == "" && strings.IndexByte(tok, '"') > 0 {
-				return "unquoted_value_with_quote_stored_as_empty_string"
 			}
 		}
 	}
+	// a value that does not start with a quote but contains one, stored as the empty string
+	if strings.HasPrefix(p.Reason, "bad_value:") {
+		bad := p.Fields[len(p.Fields)-1]
+		tok := bad.Val.Tok
+		if tok[0] != '"' && strings.IndexByte(tok, '"') > 0 {
+			for _, f := range o.Fields {
+				if f.Key == bad.Key && f.Val.Kind == 's' && f.Val.S == "" {
+					return "unquoted_value_with_quote_stored_as_empty_string"
+				}
+			}
+		}
+	}
+	if p.Reason == "unbalanced_quotes" {
+		return "unbalanced_quotes_accepted"
+	}
 	return "invalid_line_accepted"
 }
+
+func c06KindRank(k string) int {
+	switch k {
+	case "invalid_line_accepted":
+		return 0
+	case "unbalanced_quotes_accepted":
+		return 1
+	case "f_suffix_value_not_validated", "unquoted_value_with_quote_stored_as_empty_string", "timestamp_precision_overflow_wraps":
+		return 3
+	}
+	return 2
+}
+
+var c06Sampled = map[string]bool{}
+
+// debugging aid: C06_DUMP=<file> lists every violating case
+var c06Dump = func() *os.File {
+	if p := os.Getenv("C06_DUMP"); p != "" {
+		f, _ := os.OpenFile(p, os.O_CREATE|os.O_APPEND|os.O_WRONLY, 0o644)
+		return f
+	}
+	return nil
+}()
 
 func c06Check(rep *kit.Report, c *c06Case) {
 	rep.Eval(1)
@@ -970,24 +1087,31 @@ func c06Check(rep *kit.Report, c *c06Case) {
 		rep.Violation("panic", c.Precision+"|"+c.Text, "panic in the write path: "+real.Panic, c)
 		return
 	}
-	lines := c06RefLines(c.Text)
+	lines, ends := c06RefLines(c.Text)
 	convs := c06Convs
-	if strings.IndexByte(c.Text, '\\') < 0 {
-		convs = convs[:1]
+	hasBS, hasQ := strings.IndexByte(c.Text, '\\') >= 0, strings.IndexByte(c.Text, '"') >= 0
+	if !hasBS || !hasQ {
+		convs = nil
+		for _, cv := range c06Convs {
+			if (!hasBS && !(cv.CollapseBS && cv.MstEq)) || (!hasQ && cv.QuoteKeys) {
+				continue
+			}
+			convs = append(convs, cv)
+		}
 	}
 	var first c06Verdict
 	var chosen *c06Verdict
 	refAccepts := false
 	for i, cv := range convs {
-		v := c06Judge(c, lines, mult, cv, &real)
+		v := c06Judge(c, lines, ends, mult, cv, &real)
 		refAccepts = refAccepts || v.RefAccepts
-		if i == 0 {
-			first = v
+		if i == 0 || (v.Kind != "" && c06KindRank(v.Kind) > c06KindRank(first.Kind)) {
+			first = v // the most specific name any reading gives to the failure
 		}
 		if v.Kind == "" {
 			chosen = &v
 			if i > 0 {
-				v.Lenient = append(v.Lenient, fmt.Sprintf("convention_collapse%v_msteq%v", cv.CollapseBS, cv.MstEq))
+				v.Lenient = append(v.Lenient, fmt.Sprintf("convention_collapse%v_msteq%v_loosequotes%v", cv.CollapseBS, cv.MstEq, cv.QuoteKeys))
 			}
 			break
 		}
@@ -995,8 +1119,9 @@ func c06Check(rep *kit.Report, c *c06Case) {
 	if real.Err == nil && len(real.Rows) > 0 || refAccepts {
 		if rep.DistinctNontrivial(kit.Hash(c.Precision, c.Text)) {
 			rep.Count("nontrivial_"+c.Group, 1)
-			if real.Err == nil && len(real.Rows) > 0 {
-				rep.Sample(3, map[string]any{"group": c.Group, "text": c.Text, "precision": c.Precision, "stored": real.Rows[0].String()})
+			if real.Err == nil && len(real.Rows) > 0 && !c06Sampled[c.Group] {
+				c06Sampled[c.Group] = true // one real case per group and worker
+				rep.Sample(32, map[string]any{"group": c.Group, "text": c.Text, "precision": c.Precision, "stored": real.Rows[0].String()})
 			}
 		}
 	}
@@ -1012,6 +1137,9 @@ func c06Check(rep *kit.Report, c *c06Case) {
 		return
 	}
 	rep.Count("violation_"+first.Kind, 1)
+	if c06Dump != nil {
+		fmt.Fprintf(c06Dump, "%s\t%s\t%q\t%q\n", first.Kind, c.Group, c.Precision, c.Text)
+	}
 	rep.Violation(first.Kind, c.Precision+"|"+c.Text, first.Detail, c)
 }
 
@@ -1054,6 +1182,16 @@ var c06IdentTemplates = []struct{ Group, T string }{
 	{"string", `m,t=v f="X" 7`},
 	{"string", `m f="X",g=2i`},
 	{"string", `m f="X"`},
+}
+
+var c06PairTemplates = []struct{ Group, T string }{
+	{"pair_mst_tagvalue", "X,t=Y f=1i 7"},
+	{"pair_tagkey_tagvalue", "m,X=Y f=1i 7"},
+	{"pair_tagvalue_string", `m,t=X f="Y" 7`},
+	{"pair_fieldkey_string", `m X="Y" 7`},
+	{"pair_fieldkeys", "m X=1i,Y=2i"},
+	{"pair_strings", `m f="X",g="Y"`},
+	{"pair_mst_fieldkey", "X Y=1i"},
 }
 
 var c06DigitStrings = func() []string {
@@ -1122,14 +1260,14 @@ var c06NearMisses = []string{
 	// large / small floats
 	"1e308", "1.7976931348623157e308", "1.7976931348623159e308", "1.8e308", "1e309", "-1e309", "1e999", "1e309f", "1e-323", "4.9e-324", "2.4e-324", "1e-400", "1e-400f",
 	"0.1", "0.2", "0.3", "0.7", "1.1", "2.675", "0.30000000000000004", "123456789.123456789", "0.000001", "1e-7", "1.5e-7", "9.9e-5", "1.9e-1", "3.3e-3", "7.7e22", "8.5e23", "1e23",
-	"9007199254740993", "9007199254740993.0", "12345678901234567890", "0.1234567890123456789", "1234567890123456.7", "179769313486231570000000000000000000000000000000000000000000000000000000000000000000000000000000000000000000000000000000000000000000000000000000000000000000000000000000000000000000000000000000000000000000000000000000000000000000000000000000000000000000000000000000000000000000000000000000000000000",
+	"9007199254740993", "9007199254740993.0", "900719925474099.3", "9.007199254740993", "90071992547.40993", "12345678901234567890", "0.1234567890123456789", "1234567890123456.7", "179769313486231570000000000000000000000000000000000000000000000000000000000000000000000000000000000000000000000000000000000000000000000000000000000000000000000000000000000000000000000000000000000000000000000000000000000000000000000000000000000000000000000000000000000000000000000000000000000000000",
 	"-0", "-0.0", "+0", "0e0", "-0e0", "00", "01", "007", "1.", ".5", "-.5", "+.5", "5.e3", "1.e+78", "1.E+78",
 }
 
 var c06Timestamps = []string{
 	"", "0", "1", "7", "100", "-1", "-100", "-9223372036854775808", "9223372036854775807", "9223372036854775808", "-9223372036854775809",
 	"9223372036", "9223372037", "9223372036854", "9223372036855", "9223372036854775", "9223372036854776", "153722867", "153722868", "2562047", "2562048",
-	"4611686018427387904", "1622851200000000000", "1622851200", "007", "+1", "abc", "1.5", "1e3", "1i", "0x10", "1 2", "1a", "a1", "１", " ", "  7", "7 ", "-", "--1",
+	"4611686018427387904", "1622851200000000000", "1622851200", "007", "+1", "abc", "1.5", "1e3", "1i", "0x10", "1 2", "1a", "a1", "１", " ", "  7", "7 ", "\t7", "7\t", " \t 7 \t", "7\t8", "-", "--1",
 }
 
 var c06Precisions = []string{"", "ns", "u", "us", "µ", "ms", "s", "m", "h", "x"}
@@ -1209,6 +1347,10 @@ func TestVerifC06(t *testing.T) {
 				}
 			}
 		}
+		for _, tail := range []string{"\n", "\r\n", "\n\n", "\n\r\n", "\n#", "\n# x\n", "\n \n"} {
+			emit("batch", a+tail, "")
+			emit("batch", "\n"+a+tail, "")
+		}
 		emit("batch", a+"\n# comment\n"+a, "ms")
 		emit("batch", "# comment\n"+a+"\r\n", "s")
 	}
@@ -1235,6 +1377,20 @@ func TestVerifC06(t *testing.T) {
 			tm := tm
 			c06Texts(c06AlphaWide, 5, func(s string) bool { return emit(tm.Group+"_wide", strings.Replace(tm.T, "X", s, 1), "") })
 		}
+	}
+	// 5. two enumerated positions at once (the slow paths are switched per body / per line by the presence
+	// of a backslash or a quote anywhere, so positions interact)
+	m := 2
+	if thorough {
+		m = 3
+	}
+	for _, tm := range c06PairTemplates {
+		tm := tm
+		c06Texts(c06Alpha, m, func(x string) bool {
+			base := strings.Replace(tm.T, "X", x, 1)
+			c06Texts(c06Alpha, m, func(y string) bool { return emit(tm.Group, strings.Replace(base, "Y", y, 1), "") })
+			return !stop
+		})
 	}
 	rep.Count("cases_generated", int64(idx)/int64(kit.NShard()))
 	rep.Max("max_text_length", int64(n))
